@@ -199,6 +199,27 @@ fn grid(env: &Env) {
                         out::eval(1);
                     }
                 }
+                // the local buffer lies in the SAME memory, directly below / directly above the guest
+                // bytes (ranges touch but do not overlap): still one access of width n
+                if matches!(n, 1 | 2 | 4 | 8) && gm == 0 && lm == 0 {
+                    for (pos, loff) in [("local-directly-below", 32usize - n), ("local-directly-above", 32 + n), ("local-one-gap-above", 32 + 2 * n)] {
+                        let g = abase + 32;
+                        // SAFETY: disjoint parts of the live arena.
+                        let local: &mut [u8] = unsafe { std::slice::from_raw_parts_mut((abase + loff) as *mut u8, n) };
+                        for (i, b) in local.iter_mut().enumerate() {
+                            *b = 0x90 | i as u8;
+                        }
+                        take_events();
+                        let _ = vs.write(local, 32);
+                        judge(&format!("slice.write({})", pos), Dir::Write, n, g, abase + loff, &take_events(), true);
+                        let _ = vs.read(local, 32);
+                        judge(&format!("slice.read({})", pos), Dir::Read, n, g, abase + loff, &take_events(), true);
+                        let _ = vs.write_slice(local, 32);
+                        judge(&format!("slice.write_slice({})", pos), Dir::Write, n, g, abase + loff, &take_events(), true);
+                        let _ = vs.read_slice(local, 32);
+                        judge(&format!("slice.read_slice({})", pos), Dir::Read, n, g, abase + loff, &take_events(), true);
+                    }
+                }
                 // ---- region level
                 let ma = MemoryRegionAddress(goff as u64);
                 let _ = reg.write(buf.as_ref(), ma);
